@@ -185,7 +185,7 @@ Section Facts.
     incl (ids w) (wpaths s) /\
     (forall fd, In fd (fds D w) -> In (Some fd) (wfds s)) /\
     length (wpaths s) = length (wfds s) /\
-    whandles D w = [] /\ rhandles D w = [].
+    whandles D w = [] /\ incl (rhandles D w) (concat (wmerging K D s)).
 
   Lemma WI_new c al f : WI (wnew K D c al) (world0 D f).
   Proof. unfold WI, ids. simpl. repeat split; auto; intros x []. Qed.
@@ -235,19 +235,37 @@ Section Facts.
         inversion H; subst; (split; [congruence |]; split; [rewrite W4, W3, Wh2; exact Rm |]; right; exists id; repeat split; simpl; congruence).
   Qed.
 
+  Lemma spill_merging (s : wsorter) (w : world) e s' w' : w_spill s w = (e, s', w') -> wmerging K D s' = wmerging K D s.
+  Proof.
+    intros H. unfold SorterWorld.w_spill in H. destruct (wstash s) as [| e0 st]; [inversion H; reflexivity |].
+    destruct (w_mkstemp D w) as [[id | x] w1]; [| inversion H; reflexivity].
+    destruct (w_open_w D id w1) as [[u | x] w2]; [| inversion H; reflexivity].
+    destruct (sort_entries K D lt pick_min (wstash (ws_register K D s id))) as [l |].
+    2: { destruct (w_close_w D id w2) as [[u3 | x3] w3]; inversion H; reflexivity. }
+    destruct (write_all D id (map snd l) w2) as [[x |] w3];
+      destruct (w_close_w D id w3) as [[u4 | x4] w4]; inversion H; reflexivity.
+  Qed.
+
   Lemma WI_grow (s s' : wsorter) (w w' : world) :
-    WI s w -> rhandles D w' = [] -> whandles D w' = [] ->
+    WI s w -> rhandles D w' = rhandles D w -> wmerging K D s' = wmerging K D s -> whandles D w' = [] ->
     ((same_reg s s' /\ ids w' = ids w /\ fds D w' = fds D w) \/
      (exists id, wpaths s' = wpaths s ++ [id] /\ wfds s' = wfds s ++ [Some id] /\
                  ids w' = ids w ++ [id] /\ fds D w' = fds D w ++ [id])) ->
     WI s' w'.
   Proof.
-    intros (Hi & Hf & Hl & Hw & Hr) R W [((P & Fd) & I & F) | (id & P & Fd & I & F)]; unfold WI.
-    - rewrite P, Fd, I, F. repeat split; assumption.
-    - rewrite P, Fd, I, F. repeat split; try assumption.
+    intros (Hi & Hf & Hl & Hw & Hr) R M W [((P & Fd) & I & F) | (id & P & Fd & I & F)]; unfold WI.
+    - rewrite P, Fd, I, F, R, M. repeat split; assumption.
+    - rewrite P, Fd, I, F, R, M. repeat split; try assumption.
       + intros x Hx. apply in_app_or in Hx. apply in_or_app. destruct Hx as [Hx | Hx]; [left; apply Hi; exact Hx | right; exact Hx].
       + intros fd Hx. apply in_app_or in Hx. apply in_or_app. destruct Hx as [Hx | [<- | []]]; [left; apply Hf; exact Hx | right; left; reflexivity].
       + rewrite !app_length. simpl. lia.
+  Qed.
+
+  Lemma spill_WI (s : wsorter) (w : world) e s' w' : WI s w -> w_spill s w = (e, s', w') -> WI s' w'.
+  Proof.
+    intros I H. pose proof I as (Hi & Hf & Hl & Hw & Hr). pose proof (spill_merging _ _ _ _ _ H) as M.
+    apply spill_spec in H; [| exact Hw]. destruct H as (R & W & C).
+    eapply WI_grow; eauto.
   Qed.
 
   Lemma add_WI (s : wsorter) x (w : world) e s' w' : WI s w -> w_add s x w = (e, s', w') -> WI s' w'.
@@ -257,8 +275,7 @@ Section Facts.
     set (s1 := ws_stash K D s (wstash s ++ [(k, enc x)])) in *.
     assert (I1 : WI s1 w) by exact I.
     destruct (length (wstash s1) =? wcap s)%nat.
-    - destruct I1 as (Hi & Hf & Hl & Hw & Hr). apply spill_spec in H; [| exact Hw]. destruct H as (R & W & C).
-      eapply WI_grow; [repeat split; eassumption | congruence | exact W | exact C].
+    - eapply spill_WI; eauto.
     - inversion H; subst. exact I1.
   Qed.
 
@@ -288,39 +305,161 @@ Section Facts.
       + intros H; inversion H; subst. eapply quiet_trans; eauto.
   Qed.
 
-  Lemma merge_quiet pulls : forall heap (w : world) r w1, w_merge pulls heap w = (r, w1) -> quiet w w1.
+  Lemma merge_quiet pulls : forall heap opn (w : world) r w1, w_merge pulls heap opn w = (r, w1) -> quiet w w1.
   Proof.
-    induction pulls as [| p IH]; intros heap w r w1; simpl.
+    induction pulls as [| p IH]; intros heap opn w r w1; simpl.
     - intros H; inversion H; subst. apply quiet_refl.
     - destruct heap as [| c0 h0]; [intros H; inversion H; subst; apply quiet_refl |].
       destruct (pick_min _ _ (c0 :: h0)) as [[c rest] |]; [| intros H; inversion H; subst; apply quiet_refl].
       destruct (w_advance (wh A K D c) (wrest A K D c) w) as [[[c' |] | x] wa] eqn:E1; apply advance_quiet in E1.
-      + destruct (w_merge p (c' :: rest) wa) as [[ys e] wb] eqn:E2. apply IH in E2. intros H; inversion H; subst.
+      + destruct (w_merge p (c' :: rest) opn wa) as [[[ys st] hs] wb] eqn:E2. apply IH in E2. intros H; inversion H; subst.
         eapply quiet_trans; eauto.
-      + destruct (w_merge p rest wa) as [[ys e] wb] eqn:E2. apply IH in E2. intros H; inversion H; subst.
+      + destruct (w_merge p rest (remove_nat (wh A K D c) opn) wa) as [[[ys st] hs] wb] eqn:E2. apply IH in E2. intros H; inversion H; subst.
         eapply quiet_trans; eauto.
       + intros H; inversion H; subst. exact E1.
   Qed.
 
-  Lemma WI_quiet_drop (s : wsorter) (w w1 : world) : WI s w -> quiet w w1 -> WI s (drop_iter D w1).
+  (* ---------- the read handles ---------- *)
+  Lemma close_r_rh h (w : world) r w1 : w_close_r D h w = (r, w1) ->
+    forall x, In x (rhandles D w1) <-> In x (rhandles D w) /\ x <> h.
   Proof.
-    intros (Hi & Hf & Hl & Hw & Hr) (a & b & c). unfold WI, ids, drop_iter in *. simpl.
-    rewrite a, b, c. repeat split; assumption.
+    unfold w_close_r. destruct (tick D CCloseR w) as [[e |] w0] eqn:T; apply tick_same in T;
+      destruct T as (_ & _ & _ & Tr); intros H; inversion H; subst; simpl; rewrite Tr; intros x; apply in_remove_nat.
   Qed.
 
-  Lemma iter_WI (s : wsorter) p (w : world) r s' w' : WI s w -> w_iter s p w = (r, s', w') -> WI s' w'.
+  Lemma read_rh (w : world) r w1 : w_read D eof w = (r, w1) -> rhandles D w1 = rhandles D w.
+  Proof.
+    unfold w_read. destruct (tick D CRead w) as [[e |] w0] eqn:T; apply tick_same in T;
+      destruct T as (_ & _ & _ & Tr); intros H; inversion H; subst; exact Tr.
+  Qed.
+
+  Lemma open_r_rh id (w : world) r w1 : w_open_r D id w = (r, w1) ->
+    match r with
+    | Ok (h, _) => rhandles D w1 = rhandles D w ++ [h]
+    | Raise _ => rhandles D w1 = rhandles D w
+    end.
+  Proof.
+    unfold w_open_r. destruct (tick D COpenR w) as [[e |] w0] eqn:T; apply tick_same in T; destruct T as (_ & _ & _ & Tr).
+    - intros H; inversion H; subst. exact Tr.
+    - destruct (lookup_file D id (files D w0)); intros H; inversion H; subst; simpl; rewrite Tr; reflexivity.
+  Qed.
+
+  (* __advance only ever closes its own handle; a cursor it returns reads through the same handle *)
+  Lemma advance_rh h ds (w : world) r w1 : w_advance h ds w = (r, w1) ->
+    incl (rhandles D w1) (rhandles D w) /\
+    match r with
+    | Ok None => ~ In h (rhandles D w1)
+    | Ok (Some c) => wh A K D c = h
+    | Raise _ => True
+    end.
+  Proof.
+    unfold SorterWorld.w_advance. destruct (w_read D eof w) as [[u | x] wa] eqn:E1; apply read_rh in E1.
+    2: { intros H; inversion H; subst. split; [rewrite E1; apply incl_refl | exact I]. }
+    destruct ds as [| d r0].
+    - destruct (w_close_r D h wa) as [[u2 | x2] wb] eqn:E2; pose proof (close_r_rh _ _ _ _ E2) as Rh;
+        intros H; inversion H; subst; (split; [intros y Hy; apply Rh in Hy; rewrite <- E1; tauto |]); [| exact I].
+      intros Hh. apply Rh in Hh. destruct Hh as (_ & N). apply N. reflexivity.
+    - destruct (w_read D eof wa) as [[u2 | x2] wb] eqn:E2; apply read_rh in E2.
+      2: { intros H; inversion H; subst. split; [rewrite E2, E1; apply incl_refl | exact I]. }
+      destruct (dec d) as [a | x3]; [| intros H; inversion H; subst; split; [rewrite E2, E1; apply incl_refl | exact I]].
+      destruct (keyf a) as [k | x4]; intros H; inversion H; subst; (split; [rewrite E2, E1; apply incl_refl |]); [reflexivity | exact I].
+  Qed.
+
+  Lemma cursors_rh paths : forall (w : world) heap w1, w_cursors paths w = (Ok heap, w1) ->
+    incl (rhandles D w1) (rhandles D w ++ map (wh A K D) heap).
+  Proof.
+    induction paths as [| p ps IH]; intros w heap w1 H; simpl in H.
+    - inversion H; subst. simpl. rewrite app_nil_r. apply incl_refl.
+    - destruct (w_open_r D p w) as [[[h c] | x] wa] eqn:E1; [| inversion H]. apply open_r_rh in E1.
+      destruct (w_advance h c wa) as [[[cu |] | x] wb] eqn:E2; try (inversion H; fail).
+      apply advance_rh in E2. destruct E2 as (Inc & Eh).
+      destruct (w_cursors ps wb) as [[l | x] wc] eqn:E3; [| inversion H]. inversion H; subst.
+      apply IH in E3. intros y Hy. apply E3 in Hy. apply in_app_or in Hy. simpl.
+      destruct Hy as [Hy | Hy]; [| apply in_or_app; right; right; exact Hy].
+      apply Inc in Hy. rewrite E1 in Hy. apply in_app_or in Hy. apply in_or_app.
+      destruct Hy as [Hy | [<- | []]]; [left; exact Hy | right; left; reflexivity].
+  Qed.
+
+  (* after `pulls` calls of next(): what is open is what was open elsewhere (R) plus the readers not yet flagged closed *)
+  Lemma merge_rh pulls : forall heap opn (w : world) ys st hs w1 R,
+    w_merge pulls heap opn w = ((ys, st, hs), w1) ->
+    incl (rhandles D w) (R ++ opn) -> incl (rhandles D w1) (R ++ hs).
+  Proof.
+    induction pulls as [| p IH]; intros heap opn w ys st hs w1 R H Inc; simpl in H.
+    - inversion H; subst. exact Inc.
+    - destruct heap as [| c0 h0]; [inversion H; subst; exact Inc |].
+      destruct (pick_min _ _ (c0 :: h0)) as [[c rest] |] eqn:Ep; [| inversion H; subst; exact Inc].
+      destruct (w_advance (wh A K D c) (wrest A K D c) w) as [[[c' |] | x] wa] eqn:E1; apply advance_rh in E1;
+        destruct E1 as (Sub & Sp).
+      + destruct (w_merge p (c' :: rest) opn wa) as [[[ys0 st0] hs0] wb] eqn:E2. inversion H; subst.
+        eapply IH; [exact E2 |]. intros y Hy. apply Inc. apply Sub. exact Hy.
+      + destruct (w_merge p rest (remove_nat (wh A K D c) opn) wa) as [[[ys0 st0] hs0] wb] eqn:E2. inversion H; subst.
+        eapply IH; [exact E2 |]. intros y Hy.
+        assert (Ny : y <> wh A K D c) by (intros ->; exact (Sp Hy)).
+        apply Sub in Hy. apply Inc in Hy. apply in_app_or in Hy. apply in_or_app.
+        destruct Hy as [Hy | Hy]; [left; exact Hy | right; apply in_remove_nat; split; assumption].
+      + inversion H; subst. intros y Hy. apply Inc. apply Sub. exact Hy.
+  Qed.
+
+  Lemma mclose_spec hs : forall (w : world) err err' w1, w_mclose D hs w err = (err', w1) ->
+    quiet w w1 /\ (forall x, In x (rhandles D w1) <-> In x (rhandles D w) /\ ~ In x hs) /\
+    (err' = None -> err = None).
+  Proof.
+    induction hs as [| h r IH]; intros w err err' w1 H; simpl in H.
+    - inversion H; subst. split; [apply quiet_refl |]. split; [intros x; tauto | auto].
+    - destruct (w_close_r D h w) as [[u | e] wa] eqn:E; pose proof (close_r_spec _ _ _ _ E) as Q; pose proof (close_r_rh _ _ _ _ E) as Rh;
+        apply IH in H; destruct H as (Q2 & Rh2 & Er).
+      + split; [eapply quiet_trans; eauto |]. split; [| exact Er].
+        intros x. rewrite Rh2, Rh. simpl. intuition.
+      + split; [eapply quiet_trans; eauto |]. split.
+        * intros x. rewrite Rh2, Rh. simpl. intuition.
+        * intros X. apply Er in X. destruct err; [discriminate | discriminate].
+  Qed.
+
+  Lemma finally_WI (s : wsorter) ys e hs (w : world) r s' w' :
+    incl (wpaths s) (wpaths s) -> w_finally A K D s ys e hs w = (r, s', w') ->
+    s' = s /\ quiet w w' /\ (forall x, In x (rhandles D w') <-> In x (rhandles D w) /\ ~ In x hs).
+  Proof.
+    intros _ H. unfold SorterWorld.w_finally in H.
+    destruct (w_mclose D hs w None) as [[e' |] w1] eqn:E; apply mclose_spec in E; destruct E as (Q & Rh & _);
+      inversion H; subst; auto.
+  Qed.
+
+  Lemma WI_quiet (s : wsorter) (w w1 : world) : WI s w -> quiet w w1 -> incl (rhandles D w1) (concat (wmerging K D s)) -> WI s w1.
+  Proof.
+    intros (Hi & Hf & Hl & Hw & Hr) (a & b & c) R. unfold WI, ids in *. rewrite a, b, c. repeat split; assumption.
+  Qed.
+
+  Lemma iter_WI (s : wsorter) p keep (w : world) r s' w' : WI s w -> w_iter s p keep w = (r, s', w') -> WI s' w'.
   Proof.
     intros I H. unfold SorterWorld.w_iter in H. destruct p as [| p]; [inversion H; subst; exact I |].
     destruct (negb (is_nil (wpaths s)) || walways s).
     - destruct (w_spill s w) as [[e s1] w1] eqn:E1.
-      pose proof I as (Hi & Hf & Hl & Hw & Hr).
-      apply spill_spec in E1; [| exact Hw]. destruct E1 as (R & W & C).
-      assert (I1 : WI s1 w1) by (eapply WI_grow; [exact I | congruence | exact W | exact C]).
+      pose proof (spill_WI _ _ _ _ _ I E1) as I1.
       destruct e as [x |]; [inversion H; subst; exact I1 |].
-      destruct (w_cursors (wpaths s1) w1) as [[heap | x] w2] eqn:E2; apply cursors_quiet in E2.
-      + destruct (w_merge (S p) heap w2) as [r3 w3] eqn:E3. apply merge_quiet in E3. inversion H; subst.
-        eapply WI_quiet_drop; [exact I1 | eapply quiet_trans; eauto].
-      + inversion H; subst. eapply WI_quiet_drop; eauto.
+      pose proof I1 as (_ & _ & _ & _ & Hr1).
+      destruct (w_cursors (wpaths s1) w1) as [[heap | x] w2] eqn:E2.
+      2: { apply cursors_quiet in E2. inversion H; subst.
+           destruct I1 as (Hi & Hf & Hl & Hw & Hr). destruct E2 as (a & b & c).
+           unfold WI, ids in *. simpl. rewrite a, b, c. repeat split; assumption. }
+      pose proof (cursors_quiet _ _ _ _ E2) as Q2. apply cursors_rh in E2.
+      destruct (w_merge (S p) heap (map (wh A K D) heap) w2) as [[[ys st] hs] w3] eqn:E3.
+      pose proof (merge_quiet _ _ _ _ _ _ E3) as Q3.
+      pose proof (merge_rh _ _ _ _ _ _ _ _ (rhandles D w1) E3 E2) as R3.
+      assert (Fin : forall e0 r0 s0 w0, w_finally A K D s1 ys e0 hs w3 = (r0, s0, w0) -> WI s0 w0).
+      { intros e0 r0 s0 w0 Hf. apply finally_WI in Hf; [| apply incl_refl]. destruct Hf as (-> & Q4 & Rh4).
+        eapply WI_quiet; [exact I1 | eapply quiet_trans; [exact Q2 |]; eapply quiet_trans; eauto |].
+        intros y Hy. apply Rh4 in Hy. destruct Hy as (Hy & N). apply R3 in Hy. apply in_app_or in Hy.
+        destruct Hy as [Hy | Hy]; [apply Hr1; exact Hy | contradiction]. }
+      destruct st as [| | e0].
+      + eapply Fin; exact H.
+      + destruct keep; [| eapply Fin; exact H].
+        inversion H; subst.
+        destruct I1 as (Hi & Hf & Hl & Hw & Hr). destruct (quiet_trans _ _ _ Q2 Q3) as (a & b & c).
+        unfold WI, ids in *. simpl. rewrite a, b, c. repeat split; try assumption.
+        rewrite concat_app. simpl. rewrite app_nil_r. intros y Hy. apply R3 in Hy. apply in_app_or in Hy. apply in_or_app.
+        destruct Hy as [Hy | Hy]; [left; apply Hr; exact Hy | right; exact Hy].
+      + eapply Fin; exact H.
     - destruct (sort_entries K D lt pick_min (wstash s)); inversion H; subst; exact I.
   Qed.
 
@@ -492,36 +631,85 @@ Section Facts.
   Lemma ids_nil (w : world) : ids w = [] -> files D w = [].
   Proof. unfold ids. destruct (files D w); simpl; [reflexivity | discriminate]. Qed.
 
+  Lemma close_r_fault h (w : world) r w1 : w_close_r D h w = (r, w1) ->
+    (fault D w = None -> r = Ok tt /\ fault D w1 = None) /\ (forall e, r = Raise e -> fault D w1 = None).
+  Proof.
+    unfold w_close_r, tick. destruct (fault D w) as [[[| n] eno] |]; intros H; inversion H; subst; simpl;
+      (split; [intros X; try discriminate; auto | intros e X; try discriminate; reflexivity]).
+  Qed.
+
+  Lemma mclose_fault hs : forall (w : world) err err' w1, w_mclose D hs w err = (err', w1) ->
+    (fault D w = None -> err' = err /\ fault D w1 = None) /\
+    (err' = None \/ err <> None \/ fault D w1 = None).
+  Proof.
+    induction hs as [| h r IH]; intros w err err' w1 H; simpl in H.
+    - inversion H; subst. split; [auto |]. destruct err'; [right; left; discriminate | left; reflexivity].
+    - destruct (w_close_r D h w) as [[u | e] wa] eqn:E; apply close_r_fault in E; destruct E as (E0 & E1);
+        apply IH in H; destruct H as (H0 & H1).
+      + split; [intros F; destruct (E0 F) as (_ & Fa); exact (H0 Fa) | exact H1].
+      + pose proof (E1 e eq_refl) as Fa. destruct (H0 Fa) as (-> & F1). split.
+        * intros F. destruct (E0 F) as (X & _). discriminate.
+        * destruct err; [right; left; discriminate | right; right; exact F1].
+  Qed.
+
+  Lemma close_merging_spec ms : forall (w : world) err err' w1, w_close_merging D ms w err = (err', w1) ->
+    quiet w w1 /\ (forall x, In x (rhandles D w1) <-> In x (rhandles D w) /\ ~ In x (concat ms)) /\
+    (err' = None -> err = None) /\
+    (fault D w = None -> err' = err /\ fault D w1 = None) /\
+    (err' = None \/ err <> None \/ fault D w1 = None).
+  Proof.
+    induction ms as [| hs r IH]; intros w err err' w1 H; simpl in H.
+    - inversion H; subst. split; [apply quiet_refl |]. split; [intros x; simpl; tauto |]. split; [auto |]. split; [auto |].
+      destruct err'; [right; left; discriminate | left; reflexivity].
+    - destruct (w_mclose D hs w err) as [err1 wa] eqn:E. pose proof (mclose_fault _ _ _ _ _ E) as (M0 & M1).
+      apply mclose_spec in E. destruct E as (Q & Rh & Er).
+      apply IH in H. destruct H as (Q2 & Rh2 & Er2 & F0 & F1).
+      split; [eapply quiet_trans; eauto |]. split; [| split; [| split]].
+      + intros x. rewrite Rh2, Rh. simpl. rewrite in_app_iff. tauto.
+      + intros X. apply Er. apply Er2. exact X.
+      + intros F. destruct (M0 F) as (-> & Fa). exact (F0 Fa).
+      + destruct F1 as [X | [X | X]]; [left; exact X | | right; right; exact X].
+        destruct M1 as [Y | [Y | Y]]; [contradiction | right; left; exact Y |].
+        destruct (F0 Y) as (_ & Fb). right. right. exact Fb.
+  Qed.
+
   Lemma close_spec (s : wsorter) (w : world) e s' w' : WI s w -> w_close s w = (e, s', w') ->
-    WI s' w' /\ fds D w' = [] /\ (forall d, In d (wfds s') -> d = None) /\
+    WI s' w' /\ fds D w' = [] /\ rhandles D w' = [] /\ (forall d, In d (wfds s') -> d = None) /\
     (e = None -> clean w' /\ wpaths s' = []) /\
     ((forall d, In d (wfds s) -> d = None) -> e = None \/ fault D w' = None) /\
     ((forall d, In d (wfds s) -> d = None) -> fault D w = None -> e = None).
   Proof.
     intros (Hi & Hf & Hl & Hw & Hr) H. unfold SorterWorld.w_close in H.
-    destruct (w_close_loop (wpaths s) (wfds s) w None []) as [[err rem] w1] eqn:E. inversion H; subst. clear H.
+    destruct (w_close_merging D (wmerging K D s) w None) as [err0 w0] eqn:E0.
+    apply close_merging_spec in E0. destruct E0 as ((Qi & Qf & Qw) & Mrh & Me & Mf0 & Mf1).
+    destruct (w_close_loop (wpaths s) (wfds s) w0 err0 []) as [[err rem] w1] eqn:E. inversion H; subst. clear H.
     apply close_loop_spec in E; [| exact Hl]. destruct E as (Lw & Lr & Li & Lf & Lm & Le & La & Lb & Lc).
+    assert (Rh0 : rhandles D w0 = []).
+    { assert (Fn : forall x, ~ In x (rhandles D w0)).
+      { intros x Hx. apply Mrh in Hx. destruct Hx as (Hx & N). apply N. apply Hr. exact Hx. }
+      destruct (rhandles D w0) as [| x l]; [reflexivity |]. exfalso. apply (Fn x). left. reflexivity. }
     assert (Fd : fds D w' = []).
     { assert (Fn : forall x, ~ In x (fds D w')).
-      { intros x Hx. apply Lf in Hx. destruct Hx as (Hx & N). apply N. apply Hf. exact Hx. }
+      { intros x Hx. apply Lf in Hx. destruct Hx as (Hx & N). apply N. apply Hf. rewrite <- Qf. exact Hx. }
       destruct (fds D w') as [| x l]; [reflexivity |]. exfalso. apply (Fn x). left. reflexivity. }
     assert (AllNone : forall d, In d (map (fun _ : nat => @None nat) rem) -> d = None).
     { intros d Hd. apply in_map_iff in Hd. destruct Hd as (y & <- & _). reflexivity. }
-    split; [| split; [exact Fd | split; [exact AllNone | split; [| split]]]].
+    split; [| split; [exact Fd | split; [congruence | split; [exact AllNone | split; [| split]]]]].
     - unfold WI. simpl. split; [| split; [| split; [| split]]].
-      + intros x Hx. apply Li in Hx. destruct Hx as (Hx & Hp). apply Hp. apply Hi. exact Hx.
+      + intros x Hx. apply Li in Hx. destruct Hx as (Hx & Hp). apply Hp. apply Hi. rewrite <- Qi. exact Hx.
       + rewrite Fd. intros fd [].
       + rewrite map_length. reflexivity.
       + congruence.
-      + congruence.
-    - intros ->. destruct (Le eq_refl) as (_ & ->). simpl. split; [| reflexivity].
+      + rewrite Lr, Rh0. intros x [].
+    - intros ->. destruct (Le eq_refl) as (E0n & ->). simpl. split; [| reflexivity].
       unfold clean. split; [| split; [exact Fd | split; congruence]].
       apply ids_nil.
       assert (Fn : forall x, ~ In x (ids w')).
-      { intros x Hx. apply Li in Hx. destruct Hx as (Hx & Hp). apply (Hp (Hi _ Hx)). }
+      { intros x Hx. apply Li in Hx. destruct Hx as (Hx & Hp). rewrite Qi in Hx. apply (Hp (Hi _ Hx)). }
       destruct (ids w') as [| x l]; [reflexivity |]. exfalso. apply (Fn x). left. reflexivity.
-    - intros AN. destruct (La AN) as [X | [X | X]]; [left; exact X | congruence | right; exact X].
-    - intros AN F. destruct (Lb AN F eq_refl) as (X & _). exact X.
+    - intros AN. destruct (La AN) as [X | [X | X]]; [left; exact X | | right; exact X].
+      destruct Mf1 as [Y | [Y | Y]]; [contradiction | congruence | right; exact (Lc AN Y)].
+    - intros AN F. destruct (Mf0 F) as (-> & F0). destruct (Lb AN F0 eq_refl) as (X & _). exact X.
   Qed.
 
   (* close() until it returns normally: three calls always suffice, and the
@@ -531,11 +719,11 @@ Section Facts.
     clean w' /\ (length cl <= 3)%nat /\ last cl (Some AssertionError) = None.
   Proof.
     intros I H. simpl in H.
-    destruct (w_close s w) as [[e1 s1] w1] eqn:E1. destruct (close_spec _ _ _ _ _ I E1) as (I1 & _ & N1 & C1 & _ & _).
+    destruct (w_close s w) as [[e1 s1] w1] eqn:E1. destruct (close_spec _ _ _ _ _ I E1) as (I1 & _ & _ & N1 & C1 & _ & _).
     destruct e1 as [x1 |]; [| inversion H; subst; destruct (C1 eq_refl) as (C & _); split; [exact C | split; simpl; auto]].
-    destruct (w_close s1 w1) as [[e2 s2] w2] eqn:E2. destruct (close_spec _ _ _ _ _ I1 E2) as (I2 & _ & N2 & C2 & A2 & _).
+    destruct (w_close s1 w1) as [[e2 s2] w2] eqn:E2. destruct (close_spec _ _ _ _ _ I1 E2) as (I2 & _ & _ & N2 & C2 & A2 & _).
     destruct e2 as [x2 |]; [| inversion H; subst; destruct (C2 eq_refl) as (C & _); split; [exact C | split; simpl; auto]].
-    destruct (w_close s2 w2) as [[e3 s3] w3] eqn:E3. destruct (close_spec _ _ _ _ _ I2 E3) as (I3 & _ & N3 & C3 & _ & B3).
+    destruct (w_close s2 w2) as [[e3 s3] w3] eqn:E3. destruct (close_spec _ _ _ _ _ I2 E3) as (I3 & _ & _ & N3 & C3 & _ & B3).
     destruct (A2 N1) as [X | F2]; [discriminate |].
     rewrite (B3 N2 F2) in *. inversion H; subst. destruct (C3 eq_refl) as (C & _). split; [exact C | split; simpl; auto].
   Qed.
@@ -543,11 +731,11 @@ Section Facts.
   (* ---------- histories ---------- *)
   Lemma step_WI (s : wsorter) o (w : world) out ys s' w' : WI s w -> w_step s o w = (out, ys, s', w') -> WI s' w'.
   Proof.
-    intros I H. unfold SorterWorld.w_step in H. destruct o as [x | p |].
+    intros I H. unfold SorterWorld.w_step in H. destruct o as [x | p keep |].
     - destruct (tainted K D s); [inversion H; subst; exact I |].
       destruct (w_add s x w) as [[e s1] w1] eqn:E. inversion H; subst. eapply add_WI; eauto.
     - destruct (tainted K D s); [inversion H; subst; exact I |].
-      destruct (w_iter s p w) as [[[ys0 e] s1] w1] eqn:E. inversion H; subst. eapply iter_WI; eauto.
+      destruct (w_iter s p keep w) as [[[ys0 e] s1] w1] eqn:E. inversion H; subst. eapply iter_WI; eauto.
     - destruct (w_close s w) as [[e s1] w1] eqn:E. inversion H; subst.
       destruct (close_spec _ _ _ _ _ I E) as (I1 & _). exact I1.
   Qed.
